@@ -212,7 +212,14 @@ fn mutate_ring(rng: &mut Rng, ring: &Ring, k: i64) -> Ring {
     }
     let n = r.len() - 1; // distinct positions
     let i = rng.below(n as u64) as usize;
-    match rng.below(12) {
+    match rng.below(13) {
+        12 => {
+            // wound twice around the same loop: every pair of segments is identical, chained or disjoint
+            let once: Ring = r[..n].to_vec();
+            r = once.iter().chain(once.iter()).cloned().collect();
+            let f = r[0];
+            r.push(f);
+        }
         0 => {
             // spike out and back: …, v, s, v, …
             let s = grid_pt(rng, k);
